@@ -56,7 +56,7 @@ func init() {
 				return 96
 			}, Run: c18Round,
 				Min: map[string]int64{"tasks": 50000, "overlapping_same_input_pairs": 1000, "rounds": 50, "globals_hash_checks": 50, "kind_render_log": 1000, "kind_render_pixels": 1000, "kind_transcode": 1000, "kind_disassemble": 1000,
-					"kind_viewbox": 1000, "buffers_reused_for_another_graphic": 500, "kind_options": 1000, "kind_generator": 1000, "kind_mdicons": 1000, "kind_helpers": 1000, "kind_encode_defaults": 1000, "kind_mdicons_file": 1000}},
+					"kind_viewbox": 1000, "buffers_reused_for_another_graphic": 500, "kind_options": 1000, "kind_generator": 1000, "kind_mdicons": 1000, "kind_helpers": 1000, "kind_encode_defaults": 1000, "kind_mdicons_file": 1000, "rounds_with_two_icon_trees": 50}},
 		},
 	})
 }
@@ -98,6 +98,13 @@ type shared18 struct {
 	// stat is a conversion summary that every pipeline adds to an accumulator of
 	// its own (its lists have spare capacity: they grew by append)
 	stat mdicons.Statistics
+	// trees are two icon directory trees with the same category and icon names
+	// but different files (path data, PNG sizes), converted with mdicons.ParseDir;
+	// treeWant is what each conversion yields when it is the only thing the
+	// process ever does (known from how the trees were written)
+	trees    []string
+	treePNG  [][2]int
+	treeWant []string
 }
 
 func hashOps18(ops []rec.Op) [32]byte {
@@ -250,6 +257,16 @@ func task18(kind int, in int, sh *shared18, variant uint64) [32]byte {
 		copy(out[:], h.Sum(nil))
 		return out
 	case 10:
+		if variant%8 == 7 && len(sh.trees) == 2 {
+			// the directory-level front end on one of two trees
+			t := int(variant>>3) % 2
+			var out bytes.Buffer
+			st, err := mdicons.ParseDir(sh.trees[t], "action", 48, &out)
+			if err != nil || st.TotalFiles != 1 || st.TotalPNG24Bytes != sh.treePNG[t][0] || st.TotalPNG48Bytes != sh.treePNG[t][1] || len(st.Failures) != 0 || out.String() != sh.treeWant[t] {
+				atomic.AddInt64(&c18FileMismatch, 1)
+			}
+			return sha256.Sum256([]byte(fmt.Sprint(out.String(), st, err)))
+		}
 		k := int(variant) % len(sh.svgNames)
 		var out bytes.Buffer
 		_, err := mdicons.ParseFile(sh.svgNames[k], "action", "verif", 24, 48, &out)
@@ -327,6 +344,37 @@ var c18BufferIdentity, c18BufferReuses int64
 // graphic the document spells (whatever other documents were converted before
 // or meanwhile).
 var c18FileMismatch int64
+
+// c18Trees writes two small icon trees in the layout mdicons.ParseDir expects
+// (<root>/<category>/svg/production/ic_<name>_<size>px.svg and
+// <root>/<category>/1x_web/ic_<name>_black_<size>dp.png).
+func c18Trees(r *run.Rng, sh *shared18, tag string) {
+	for t := 0; t < 2; t++ {
+		root := filepath.Join(run.ScratchDir(), fmt.Sprintf("c18-tree-%s-%d", tag, t))
+		svgDir := filepath.Join(root, "action", "svg", "production")
+		pngDir := filepath.Join(root, "action", "1x_web")
+		if os.MkdirAll(svgDir, 0755) != nil || os.MkdirAll(pngDir, 0755) != nil {
+			return
+		}
+		d, _ := gen.PathString(r, false)
+		doc := `<svg xmlns="http://www.w3.org/2000/svg" width="48" height="48" viewBox="0 0 48 48"><path d="` + d + `"/></svg>`
+		n24, n48 := 100+37*t+r.Intn(30), 400+91*t+r.Intn(30)
+		if os.WriteFile(filepath.Join(svgDir, "ic_verif_48px.svg"), []byte(doc), 0644) != nil ||
+			os.WriteFile(filepath.Join(pngDir, "ic_verif_black_24dp.png"), make([]byte, n24), 0644) != nil ||
+			os.WriteFile(filepath.Join(pngDir, "ic_verif_black_48dp.png"), make([]byte, n48), 0644) != nil {
+			return
+		}
+		// the listing ParseDir must write is that of ParseFile for the one file
+		// (the whole-icon sub-monitor of C20 judges ParseFile itself)
+		var want bytes.Buffer
+		if _, err := mdicons.ParseFile(filepath.Join(svgDir, "ic_verif_48px.svg"), "action", "verif", 48, 48, &want); err != nil {
+			return
+		}
+		sh.trees = append(sh.trees, root)
+		sh.treePNG = append(sh.treePNG, [2]int{n24, n48})
+		sh.treeWant = append(sh.treeWant, want.String())
+	}
+}
 
 // c18Documents writes the round's SVG documents: the same number of path
 // elements in each, with and without optional attributes at the same
@@ -492,6 +540,12 @@ func c18Round(c *run.Ctx, idx uint64) {
 	sh.opts = append(sh.opts, decode.WithColorAt(2, color.RGBA{9, 8, 7, 0xff}), decode.WithColorAt(3, color.NRGBA{200, 100, 50, 0x80}), decode.WithPalette(pal), decode.WithColorAt(0, color.Gray{0x33}))
 
 	c18Documents(r, sh, fmt.Sprint(idx))
+	c18Trees(r, sh, fmt.Sprint(idx))
+	defer func() {
+		for _, t := range sh.trees {
+			os.RemoveAll(t)
+		}
+	}()
 	sh.stat = mdicons.Statistics{VarNames: append(make([]string, 0, 8), "ActionA", "ActionB", "ActionC"), Failures: append(make([]string, 0, 4), "x"), TotalFiles: 3, TotalIVGBytes: 300, TotalSVGBytes: 900}
 	defer func() {
 		for _, n := range sh.svgNames {
@@ -587,6 +641,9 @@ func c18Round(c *run.Ctx, idx uint64) {
 		c.Digest(fmt.Sprintf("workload-%d", idx/3), fmt.Sprintf("%x", h.Sum(nil)[:12]))
 	}
 	c.Count("rounds", 1)
+	if len(sh.trees) == 2 {
+		c.Count("rounds_with_two_icon_trees", 1)
+	}
 	c.Count("globals_hash_checks", 1)
 	desc := map[string]interface{}{"round": idx, "goroutines": G, "gomaxprocs": procs, "hot_inputs": len(sh.inputs)}
 	for g := range panics {
